@@ -176,6 +176,9 @@ func (m *SubscribeMessage) Decode(src []byte) (int, error) {
 	m.packetID = src[total : total+2]
 	total += 2
 
+	// Decoding replaces whatever the message held before.
+	m.topics, m.qos = nil, nil
+
 	remlen := int(m.remlen) - (total - hn)
 	for remlen > 0 {
 		t, n, err := readLPBytes(src[total:])
